@@ -25,12 +25,20 @@ fn workers() -> usize {
 
 /// re-check one (parser, tokens) for a violation with this key
 fn still_bad(w: &World, s: &dyn sut::Sut, toks: &[usize], key: &str, property: &str) -> Option<Bad> {
+    still_bad_known(w, s, toks, key, property, None)
+}
+
+fn still_bad_known(w: &World, s: &dyn sut::Sut, toks: &[usize], key: &str, property: &str, known_prefix: Option<usize>) -> Option<Bad> {
     let mut st = c17::Stats::default();
+    let mut known = std::collections::BTreeSet::new();
+    if let Some(k) = known_prefix {
+        known.insert(toks[..k.min(toks.len())].to_vec());
+    }
     let mut rng = Rng::new(1);
     let var = w.variant(s);
     let shapes: &[u8] = if var.builtin { &[0] } else { &[0, 1] };
     for &shape in shapes {
-        let bads = if property == "C04" { c17::check_c04(w, s, toks, shape, &mut st).0 } else { c17::check_c17(w, s, toks, shape, &mut rng, &mut st) };
+        let bads = if property == "C04" { c17::check_c04_known(w, s, toks, shape, &mut st, &known).0 } else { c17::check_c17(w, s, toks, shape, &mut rng, &mut st) };
         if let Some(b) = bads.into_iter().find(|b| b.key == key) {
             return Some(b);
         }
@@ -82,7 +90,14 @@ fn report(w: &World, property: &str, sum: &c17::Summary) -> (u64, u64, Vec<Value
             continue;
         }
         let s = w.suts[*idx].as_ref();
-        let (mtoks, mb) = if toks.is_empty() { (toks.clone(), Some(b.clone())) } else { minimize(w, s, toks, key, property) };
+        let (mtoks, mb) = if toks.is_empty() {
+            (toks.clone(), Some(b.clone()))
+        } else if b.aux.is_some() {
+            // the known-sentence prefix is tied to these very tokens: no shrinking
+            (toks.clone(), still_bad_known(w, s, toks, key, property, b.aux))
+        } else {
+            minimize(w, s, toks, key, property)
+        };
         let mb = match mb {
             Some(x) => x,
             None => simcore::harness_error(&format!("{property}: violation `{key}` did not reproduce on re-execution")),
@@ -618,7 +633,8 @@ fn replay(path: &str) -> i32 {
     let toks: Vec<usize> = doc["tokens"].as_array().map(|a| a.iter().map(|v| v.as_u64().unwrap_or(u64::MAX) as usize).collect()).unwrap_or_default();
     let key = doc["key"].as_str().unwrap_or("");
     let property = doc["property"].as_str().unwrap_or("C17");
-    match still_bad(&w, s, &toks, key, property) {
+    let known_prefix = doc["known_sentence_prefix"].as_u64().map(|k| k as usize);
+    match still_bad_known(&w, s, &toks, key, property, known_prefix) {
         Some(b) => {
             println!("reproduced: {}\n  {}", b.key, b.detail);
             println!("VIOLATION property={property} replay={path}");
